@@ -173,7 +173,11 @@ Definition silent_code (t : Z) (r : roles) (d : damage) : N :=
   | Some LZ4 =>
     match d with
     | DTrunc _ => 20
-    | DFlip l => if forallb (fun pm => fst pm <? 4) l then 21
+    | DFlip l => if forallb (fun pm => fst pm <? 4) l ||
+                    (* byte 1 of the magic becomes 0x2a, bytes 2 and 3 untouched: the frame is a
+                       skippable frame whatever else was flipped behind it *)
+                    (existsb (fun pm => (fst pm =? 1) && (snd pm =? 8)) l &&
+                     forallb (fun pm => negb ((fst pm =? 2) || (fst pm =? 3))) l) then 21
                  else if all_in (lit_runs r) l then 22 else 9
     | _ => 9
     end
